@@ -4,7 +4,9 @@
 (* entry.                                                                  *)
 (*                                                                         *)
 (* A run is configured by the mapping (a sequence of distinct entry names, *)
-(* each a class with __init__ or a function), the output type, the name    *)
+(* each a class with __init__ or a function; with `alias` the mapping key  *)
+(* differs from the name the object was defined under, and it is the key   *)
+(* that names the definition), the output type, the name                   *)
 (* template, whether text is prepended, how many import lines the          *)
 (* imports-file has, and whether the output file already exists.  The      *)
 (* output module is abstracted to the sequence of its top-level items:     *)
@@ -20,14 +22,17 @@ Templated(t, n) == IF t = "suffix" THEN n \o "Config" ELSE "Cfg" \o n
 Types == {"class", "function", "argparse"}
 
 Cfg == [mapping : {s \in UNION {[1..k -> EntryNames] : k \in 1..3} : \A i, j \in 1..Len(s) : i # j => s[i] # s[j]},
-        type : Types, tpl : Tpl, prepend : BOOLEAN, imports : 0..2, exists : BOOLEAN]
+        type : Types, tpl : Tpl, prepend : BOOLEAN, imports : 0..2, exists : BOOLEAN, alias : BOOLEAN]
+\* the mapping key of entry n: its own name, or a key that differs from the object's __name__
+Key(c, n) == IF c.alias THEN "My" \o n ELSE n
+Names(c) == [i \in 1..Len(c.mapping) |-> Templated(c.tpl, Key(c, c.mapping[i]))]
 
 Rep(x, n) == [i \in 1..n |-> x]
 Expected(c) ==
   IF c.exists THEN <<"refused">>
   ELSE (IF c.prepend THEN <<"prepend">> ELSE <<>>)
        \o Rep("import", c.imports)
-       \o [i \in 1..Len(c.mapping) |-> Templated(c.tpl, c.mapping[i])]
+       \o Names(c)
        \o <<"all">>
 
 VARIABLES cfg, out, runs
@@ -41,7 +46,10 @@ Spec == Init /\ [][Run]_vars
 
 Defs(o) == SelectSeq(o, LAMBDA x : x \notin {"prepend", "import", "all", "old", "refused"})
 \* exactly one definition per entry, named by the template, in mapping order
-OnePerEntryInOrder == (runs > 0 /\ ~cfg.exists) => Defs(out) = [i \in 1..Len(cfg.mapping) |-> Templated(cfg.tpl, cfg.mapping[i])]
+OnePerEntryInOrder == (runs > 0 /\ ~cfg.exists) => Defs(out) = Names(cfg)
+\* the definition of an entry is named after its key, not after the object it describes
+KeyNamesDefinition == (runs > 0 /\ ~cfg.exists /\ cfg.alias) =>
+  \A i \in 1..Len(cfg.mapping) : Templated(cfg.tpl, cfg.mapping[i]) \notin Range(Defs(out))
 \* prepended text and imports once, before the definitions; __all__ last
 Layout == (runs > 0 /\ ~cfg.exists) =>
   /\ out[Len(out)] = "all"
